@@ -410,7 +410,37 @@ func runSeq(p *core.Program, r *core.Report, queue bool) {
 			}
 			c.ob("PT5", fname, "match reports true", p.InstrPos(bo), okT, "a matching element must make Search return true")
 		}
-		c.ob("PT5", fname, "element comparison", c.fpos(fn), nCmp == 1, "Search must compare the held elements with the probe at exactly one site")
+		// ... or Search hands the question to a membership function (the module's Contains,
+		// x/exp/slices.Contains): a callee recognised by its body as a complete forward ==
+		// scan of its first argument that writes nothing, given items and the probe, whose
+		// answer is returned as it is
+		delegated := false
+		if nCmp == 0 {
+			okD := true
+			nR := 0
+			for _, b := range fn.Blocks {
+				ret, ok := b.Instrs[len(b.Instrs)-1].(*ssa.Return)
+				if !ok || b == fn.Recover {
+					continue
+				}
+				nR++
+				call, ok := path.ReturnValues(ret)[0].(*ssa.Call)
+				if !ok {
+					okD = false
+					continue
+				}
+				callee := path.StaticCallee(call)
+				a := call.Call.Args
+				if callee == nil || len(a) != 2 || !isLoadOfField(a[0], sl, "items") || a[1] != ssa.Value(probe) || !membershipFn(p, callee) {
+					okD = false
+				}
+			}
+			delegated = okD && nR > 0
+			if delegated {
+				c.ob("PT5", fname, "full forward scan of items", c.fpos(fn), true, "")
+			}
+		}
+		c.ob("PT5", fname, "element comparison", c.fpos(fn), nCmp == 1 || delegated, "Search must compare the held elements with the probe at exactly one site")
 		for _, b := range fn.Blocks {
 			ret, ok := b.Instrs[len(b.Instrs)-1].(*ssa.Return)
 			if !ok || b == fn.Recover {
@@ -447,6 +477,9 @@ func runSeq(p *core.Program, r *core.Report, queue bool) {
 						v = slc.X
 					}
 					if isLoadOfField(v, sl, "items") {
+						if cal := path.StaticCallee(call); cal != nil && membershipFn(p, cal) {
+							continue // a callee that only reads its slice argument
+						}
 						c.ob("AG1", p.FuncName(f), "hands items to another function", p.InstrPos(in), false, "the backing slice is passed to "+call.Common().Value.Name()+": the callee can reorder or overwrite the held elements")
 					}
 				}
